@@ -38,12 +38,21 @@ func c15Load(path string) (*discovery.Agg, error) {
 type c15delivery struct {
 	cuts     []int // batch boundaries (indices into the stream, increasing)
 	restarts map[int]bool
+	// failWrite: the state file cannot be written while this batch is flushed
+	// (disk error); the records of such a batch may or may not be kept
+	failWrite map[int]bool
 }
 
 // deliver feeds the records in the given batches to a fresh state (and tree),
 // restarting where asked; it returns the final aggregation read back from disk
 // and the final tree.
 func c15deliver(dir, tag string, recs []common.AccessLog, d c15delivery, threshold int) (*discovery.Agg, common.SimpleURLTreeI, error) {
+	a, t, _, err := c15deliverF(dir, tag, recs, d, threshold)
+	return a, t, err
+}
+
+// c15deliverF also reports the batches whose flush met the injected write failure.
+func c15deliverF(dir, tag string, recs []common.AccessLog, d c15delivery, threshold int) (*discovery.Agg, common.SimpleURLTreeI, []int, error) {
 	path := filepath.Join(dir, "discovery-"+tag+".json")
 	os.Remove(path)
 	newTree := func() (common.SimpleURLTreeI, error) {
@@ -51,32 +60,80 @@ func c15deliver(dir, tag string, recs []common.AccessLog, d c15delivery, thresho
 	}
 	state := &discovery.State{DiscoverFilepath: path}
 	if err := state.InitializeState(); err != nil {
-		return nil, nil, err
+		return nil, nil, nil, err
 	}
 	tree, err := newTree()
 	if err != nil {
-		return nil, nil, err
+		return nil, nil, nil, err
 	}
 	prev := 0
+	var failed []int
 	bounds := append(append([]int{}, d.cuts...), len(recs))
 	for bi, end := range bounds {
 		if d.restarts[bi] {
 			// only the state file survives
 			state = &discovery.State{DiscoverFilepath: path}
 			if err := state.InitializeState(); err != nil {
-				return nil, nil, err
+				return nil, nil, nil, err
 			}
 			if tree, err = newTree(); err != nil {
-				return nil, nil, err
+				return nil, nil, nil, err
 			}
 		}
+		if d.failWrite[bi] {
+			// the path is a directory for the time of this flush: the write fails
+			held := path + ".held"
+			had := os.Rename(path, held) == nil
+			if err := os.Mkdir(path, 0o755); err != nil {
+				return nil, nil, nil, err
+			}
+			runErr := discovery.Run(state, recs[prev:end], tree)
+			os.Remove(path)
+			if had {
+				if err := os.Rename(held, path); err != nil {
+					return nil, nil, nil, err
+				}
+			}
+			if runErr != nil {
+				failed = append(failed, bi)
+			}
+			prev = end
+			continue
+		}
 		if err := discovery.Run(state, recs[prev:end], tree); err != nil {
-			return nil, nil, err
+			return nil, nil, nil, err
 		}
 		prev = end
 	}
 	agg, err := c15Load(path)
-	return agg, tree, err
+	return agg, tree, failed, err
+}
+
+// c15compare compares a delivery's final aggregation with a reference; "" = same.
+func c15compare(got, one *discovery.Agg) (string, string) {
+	if len(got.Endpoints) != len(one.Endpoints) {
+		return "endpoint-set-depends-on-batching", fmt.Sprintf("endpoints %v, one batch gives %v", c15keys(got), c15keys(one))
+	}
+	keys := make([]sharedDiscovery.Endpoint, 0, len(one.Endpoints))
+	for k := range one.Endpoints {
+		keys = append(keys, k)
+	}
+	sort.Slice(keys, func(i, j int) bool { return fmt.Sprint(keys[i]) < fmt.Sprint(keys[j]) })
+	for _, k := range keys {
+		a := one.Endpoints[k]
+		b, ok := got.Endpoints[k]
+		if !ok {
+			return "endpoint-set-depends-on-batching", fmt.Sprintf("endpoint %v missing; got %v", k, c15keys(got))
+		}
+		if a.Count != b.Count || a.MinTime != b.MinTime || a.MaxTime != b.MaxTime || fmt.Sprint(sortedStatus(a.StatusCodes)) != fmt.Sprint(sortedStatus(b.StatusCodes)) {
+			return "statistics-depend-on-batching", fmt.Sprintf("endpoint %v count/min/max/status = %d/%d/%d/%v, one batch gives %d/%d/%d/%v",
+				k, b.Count, b.MinTime, b.MaxTime, sortedStatus(b.StatusCodes), a.Count, a.MinTime, a.MaxTime, sortedStatus(a.StatusCodes))
+		}
+		if !relClose(a.AverageDuration, b.AverageDuration) || !relClose(a.AverageTotalDuration, b.AverageTotalDuration) {
+			return "averages-depend-on-batching", fmt.Sprintf("endpoint %v averages %v/%v, one batch gives %v/%v", k, b.AverageDuration, b.AverageTotalDuration, a.AverageDuration, a.AverageTotalDuration)
+		}
+	}
+	return "", ""
 }
 
 func relClose(a, b float32) bool {
@@ -248,51 +305,88 @@ func runC15(s *kernel.Sim) {
 				withRestart = false
 			}
 		}
-		s.Event("delivery", fmt.Sprintf("cuts=%v restarts=%v", d.cuts, d.restarts))
-		s.MixSig(fmt.Sprint(d.cuts, d.restarts))
-		got, _, err := c15deliver(dir, fmt.Sprintf("split%d", si), recs, d, threshold)
+		// a disk error during one or two flushes (a third of the deliveries)
+		if tp.Chance(1, 3) {
+			d.failWrite = map[int]bool{}
+			for k := tp.Range(1, 2); k > 0; k-- {
+				d.failWrite[tp.Choose(len(d.cuts)+1)] = true
+			}
+		}
+		s.Event("delivery", fmt.Sprintf("cuts=%v restarts=%v failed-writes=%v", d.cuts, d.restarts, d.failWrite))
+		s.MixSig(fmt.Sprint(d.cuts, d.restarts, d.failWrite))
+		got, _, failed, err := c15deliverF(dir, fmt.Sprintf("split%d", si), recs, d, threshold)
 		if err != nil {
 			s.Violate("R2", "run-error", "discovery.Run failed for cuts %v restarts %v: %v", d.cuts, d.restarts, err)
 			return
 		}
 		s.FaultFired("batch_split")
-		conserve(fmt.Sprintf("cuts %v restarts %v", d.cuts, d.restarts), got)
+		what := fmt.Sprintf("cuts %v restarts %v", d.cuts, d.restarts)
+		pm := func(a *discovery.Agg) map[string]int {
+			m := map[string]int{}
+			for ep, e := range a.Endpoints {
+				m[ep.Method] += int(e.Count)
+			}
+			return m
+		}
+		// the references: one batch of all records; after failed flushes also one
+		// batch of the records without any subset of the batches that failed (a failed
+		// flush may lose its batch, it may not damage anything else)
+		refs := []*discovery.Agg{one}
+		if len(failed) > 0 {
+			s.FaultFired("state_file_write_failure")
+			what += fmt.Sprintf(" failed writes at batches %v", failed)
+			bounds := append(append([]int{}, d.cuts...), len(recs))
+			for mask := 1; mask < 1<<len(failed); mask++ {
+				var sub []common.AccessLog
+				prev := 0
+				for bi, end := range bounds {
+					drop := false
+					for fi, fb := range failed {
+						drop = drop || (fb == bi && mask&(1<<fi) != 0)
+					}
+					if !drop {
+						sub = append(sub, recs[prev:end]...)
+					}
+					prev = end
+				}
+				ref, _, rerr := c15deliver(dir, "ref", sub, c15delivery{}, threshold)
+				if rerr != nil {
+					s.HarnessErr = "reference delivery failed: " + rerr.Error()
+					return
+				}
+				refs = append(refs, ref)
+			}
+		} else {
+			conserve(what, got)
+		}
 		if withRestart {
 			s.FaultFired("restart_with_only_state_file")
 			s.Rule("R4")
 			// per-method totals are preserved across restarts (keys may differ: the tree was rebuilt)
-			pm := func(a *discovery.Agg) map[string]int {
-				m := map[string]int{}
-				for ep, e := range a.Endpoints {
-					m[ep.Method] += int(e.Count)
-				}
-				return m
+			ok := false
+			for _, ref := range refs {
+				ok = ok || fmt.Sprint(pm(got)) == fmt.Sprint(pm(ref))
 			}
-			if fmt.Sprint(pm(got)) != fmt.Sprint(pm(one)) {
-				s.Violate("R4", "totals-not-preserved-across-restart", "cuts %v restarts %v: per-method totals %v, one batch gives %v", d.cuts, d.restarts, pm(got), pm(one))
+			if !ok {
+				s.Violate("R4", "totals-not-preserved-across-restart", "%s: per-method totals %v, one batch gives %v", what, pm(got), pm(one))
 			}
 			continue
 		}
 		s.Rule("R2")
-		if len(got.Endpoints) != len(one.Endpoints) {
-			s.Violate("R2", "endpoint-set-depends-on-batching", "cuts %v: endpoints %v, one batch gives %v", d.cuts, c15keys(got), c15keys(one))
-			continue
+		var firstSig, firstDetail string
+		match := false
+		for _, ref := range refs {
+			sig, detail := c15compare(got, ref)
+			if sig == "" {
+				match = true
+				break
+			}
+			if firstSig == "" {
+				firstSig, firstDetail = sig, detail
+			}
 		}
-		for k, a := range one.Endpoints {
-			b, ok := got.Endpoints[k]
-			if !ok {
-				s.Violate("R2", "endpoint-set-depends-on-batching", "cuts %v: endpoint %v missing; got %v", d.cuts, k, c15keys(got))
-				break
-			}
-			if a.Count != b.Count || a.MinTime != b.MinTime || a.MaxTime != b.MaxTime || fmt.Sprint(sortedStatus(a.StatusCodes)) != fmt.Sprint(sortedStatus(b.StatusCodes)) {
-				s.Violate("R2", "statistics-depend-on-batching", "cuts %v: endpoint %v count/min/max/status = %d/%d/%d/%v, one batch gives %d/%d/%d/%v",
-					d.cuts, k, b.Count, b.MinTime, b.MaxTime, sortedStatus(b.StatusCodes), a.Count, a.MinTime, a.MaxTime, sortedStatus(a.StatusCodes))
-				break
-			}
-			if !relClose(a.AverageDuration, b.AverageDuration) || !relClose(a.AverageTotalDuration, b.AverageTotalDuration) {
-				s.Violate("R2", "averages-depend-on-batching", "cuts %v: endpoint %v averages %v/%v, one batch gives %v/%v", d.cuts, k, b.AverageDuration, b.AverageTotalDuration, a.AverageDuration, a.AverageTotalDuration)
-				break
-			}
+		if !match {
+			s.Violate("R2", firstSig, "%s: %s", what, firstDetail)
 		}
 	}
 	s.State(fmt.Sprintf("e%d", len(one.Endpoints)))
